@@ -27,6 +27,9 @@ def tangent_sampler(g, scale_rot=None, well_conditioned=False):
         tgt = strata[k % len(strata)]
         for blk, ro, do, mo in O.group_blocks(g):
             idx = [do + i for i in blk.rot]
+            if blk.name == "C1":
+                # coordinate 0 of C1 is the LOG of the scale: exp(+-1000) is not a double.  Bound |log scale| <= 3 (stated)
+                a[do] = r.uniform(-3.0, 3.0)
             if not idx:
                 continue
             if tgt is None:
@@ -377,7 +380,7 @@ def job_logexp(g, tier):
                     else:
                         with T.time_budget(20 if tier == "quick" else 240):
                             v = solver.check_identity(T.nf(T.Sub(p2.outs[k], a[k])), pc=p1.pc + p2.pc, assumptions=asm)
-                except T.PolyTooBig:
+                except (T.PolyTooBig, MemoryError):
                     v = solver.Verdict("undecided", "normal form too large")
                 if v.status == "violated":
                     w = roundtrip_witness(h, t, g, "log-exp", k, tangent_sampler(g))
@@ -520,7 +523,7 @@ def job_explog(g, tier):
                             v = series_element_bound(T.Sub(p2.outs[k], gs[k]), g, small)
                         else:
                             v = solver.check_identity(T.nf(T.Sub(p2.outs[k], gs[k])), pc=p1.pc + p2.pc, assumptions=asm)
-                except T.PolyTooBig:
+                except (T.PolyTooBig, MemoryError):
                     v = solver.Verdict("undecided", "normal form too large")
                 if v.status == "violated":
                     w = roundtrip_witness(h, t, g, "exp-log", k, None)
